@@ -387,6 +387,68 @@ def kepcont_case():
                      "for any duration")
 
 
+def kepimp_form_case():
+    """KeplerianImpulsiveMan.dv(orb) for an orbit expressed in *spherical* form: the TNW delta-v of dkep2dv (two arbitrary reals
+    here: tangential and out-of-plane parts) is carried to the frame of the orbit along the velocity and the angular momentum
+    of the state -- of its position and velocity, whatever the six numbers the state is stored as (ImpulsiveMan.dv,
+    ContinuousMan.accel and KeplerianContinuousMan.accel all say `orb.copy(form="cartesian")` first)"""
+    ins = [("r", "pos"), ("th", "angle", {"lo": "free"}), ("ph", "angle", {"lo": "-pi"}), ("rd", "real"), ("thd", "real"), ("phd", "real"),
+           ("dt", "real"), ("dw", "real")]
+
+    def pre(v):
+        c = v["ph"].cos()
+        # non-degenerate: off the polar axis, non-zero angular momentum
+        return [c > 0, v["thd"] * v["thd"] * c * c + v["phd"] * v["phd"] > 0]
+
+    def cart(env, v):
+        r, th, ph, rd, thd, phd = (v[k] for k in ("r", "th", "ph", "rd", "thd", "phd"))
+        ct, st, cp, sp = env.cos(th), env.sin(th), env.cos(ph), env.sin(ph)
+        pos = [r * cp * ct, r * cp * st, r * sp]
+        vel = [rd * cp * ct - r * sp * ct * phd - r * cp * st * thd, rd * cp * st - r * sp * st * phd + r * cp * ct * thd,
+               rd * sp + r * cp * phd]
+        return pos + vel
+
+    def run(env, v):
+        man = env.mod("beyond.orbits.man") if env.symbolic else __import__("importlib").import_module("beyond.orbits.man")
+        el = [v[k] for k in ("r", "th", "ph", "rd", "thd", "phd")]
+        saved = man.dkep2dv
+        try:
+            if env.symbolic:
+                from symx.stubs import carrier
+                env.mod("beyond.frames.local")
+                env.mod("beyond.orbits.forms")
+                forms = __import__("importlib").import_module("beyond.orbits.forms")
+                man.dkep2dv = lambda orb, **kw: env.vec(v["dt"], 0, v["dw"])
+                fr = _NS(); fr.name = "EME2000"; fr.center = _NS(); fr.center.body = _NS(); fr.center.body.mu = 1
+                o = carrier(el, date=SymDate(0), frame=fr, form=forms.SPHE)
+                return {"dv": list(man.KeplerianImpulsiveMan(SymDate(0), da=1).dv(o))}
+            from beyond.dates import Date
+            from beyond.orbits import StateVector
+            el = [7e6 * (1 + abs(float(v["r"])) % 3), float(v["th"]), float(v["ph"]), 1e3 * float(v["rd"]), 1e-3 * float(v["thd"]),
+                  1e-3 * float(v["phd"])]
+            man.dkep2dv = lambda orb, **kw: np.array([float(v["dt"]), 0.0, float(v["dw"])])
+            o = StateVector(el, Date(2020, 1, 1), "spherical", "EME2000")
+            got = np.array(man.KeplerianImpulsiveMan(o.date, da=1).dv(o), dtype=float)
+            c = np.array(o.copy(form="cartesian"), dtype=float)
+            t = c[3:] / np.linalg.norm(c[3:])
+            w = np.cross(c[:3], c[3:])
+            w /= np.linalg.norm(w)
+            return {"dv": list(got - (float(v["dt"]) * t + float(v["dw"]) * w))}
+        finally:
+            man.dkep2dv = saved
+
+    def ref(env, v, out):
+        if not env.symbolic:
+            return {"dv": [0, 0, 0]}
+        c = cart(env, v)
+        A = axes(env, dict(zip(RV, c)), "TNW")
+        return {"dv": [v["dt"] * A[0][k] + v["dw"] * A[2][k] for k in range(3)]}
+    return Case("kepler_impulsive/form", ins, run, ref, pre=pre, timeout=120, maxpaths=64, tol=1e-9, abs_tol=1e-9,
+                signature="KeplerianImpulsiveMan.dv builds the TNW axes from the raw elements of a non-cartesian state",
+                desc="KeplerianImpulsiveMan.dv on a state stored in spherical form: tangential part along the velocity, out-of-plane part "
+                     "along r x v of the state's cartesian position and velocity")
+
+
 def late_start_case(a_frac, tm_frac):
     """the real KeplerNum._iter + _make_step (Euler, free motion: zero acceleration) + the real Ephem (Lagrange order 2) for an
     iteration that starts a_frac steps after the epoch with an impulse tm_frac steps after the epoch (a_frac < tm_frac): every
@@ -467,7 +529,7 @@ def all_cases(tier):
         for kind in ("impulsive", "cont_dv", "cont_accel"):
             cs.append(man_case(fr, kind))
     cs += [window_case(p) for p in ("start", "median", "stop")]
-    cs += [tiling_case(bounds(tier)["tiles"]), makestep_case(), dkep_case(), dkep_norm_case(), kepcont_case(), late_start_case("1/2", "3/4"),
+    cs += [tiling_case(bounds(tier)["tiles"]), makestep_case(), dkep_case(), dkep_norm_case(), kepcont_case(), kepimp_form_case(), late_start_case("1/2", "3/4"),
            late_start_case("1", "3/2"), late_start_case("3/2", "7/4")]
     return cs
 
